@@ -645,6 +645,12 @@ func (s *Server) handleRequest(req *dhcpv4.DHCPv4) (*dhcpv4.DHCPv4, error) {
 		} else if !pool.Contains(requestedIP) {
 			atomic.AddUint64(&s.naksTotal, 1)
 			return s.buildNAK(req, "IP not in pool")
+		} else if s.nexusClient == nil && !pool.IsAllocatedTo(mac, requestedIP) {
+			// The local pool is authoritative: only the address it offered to
+			// this client may be acknowledged - never the gateway, network or
+			// broadcast address, nor one leased or offered to another client.
+			atomic.AddUint64(&s.naksTotal, 1)
+			return s.buildNAK(req, "IP not offered to this client")
 		}
 	}
 
